@@ -221,12 +221,29 @@ static const size_t counts[] = {0, 1, 2, 3, 4, 5, 6, 7, 8, 9, 10, 11, 12, 13, 14
                                 63, 64, 65, 100, 127, 128, 129, 200, 255, 256, 257, 300};
 #define NLEN (321 + sizeof big_lens / sizeof big_lens[0])
 #define NCNT (sizeof counts / sizeof counts[0])
-#define FAM3 ((uint64_t)(NLEN * 2 * 2 + NCNT * 4 * 2))
+/* fourth family: strings filled with one byte value (classic trouble for scanners that back up or skip ahead, for
+ * format strings and for escaping code) at lengths across every head width and typical internal buffer sizes */
+static const uint8_t fills[] = {0x80, 0xbf, 0xff, 0x00, 0x0a, '%', 0xc3, 0xe2, 0xf0, 0x7f, '\\', '"'};
+static const size_t fill_lens[] = {1, 2, 23, 24, 255, 256, 257, 511, 512, 513, 1023, 1024, 1025, 1026, 2048, 4097, 8192, 65536};
+#define NFILL ((uint64_t)(sizeof fills) * (sizeof fill_lens / sizeof fill_lens[0]) * 2 * 2)
+#define FAM3 ((uint64_t)(NLEN * 2 * 2 + NCNT * 4 * 2) + NFILL)
 uint64_t gen_systematic_count(void) {
   leaves_init();
   return g_nleaves * NCTX + (uint64_t)NCTX * NCTX * 16 + FAM3;
 }
 static rnode* family3(uint64_t i) {
+  if (i >= FAM3 - NFILL) {
+    i -= FAM3 - NFILL;
+    int ctx = (int)(i & 1), kind = (int)((i >> 1) & 1);
+    i >>= 2;
+    size_t nl = sizeof fill_lens / sizeof fill_lens[0];
+    size_t len = fill_lens[i % nl];
+    uint8_t fb = fills[(i / nl) % sizeof fills];
+    rnode* n = mk_str(kind ? R_TEXT : R_BYTES, len, 255, 0);
+    memset(n->bytes, fb, len);
+    if (ctx) { rnode* c = rn_new(kind ? R_TEXT : R_BYTES); c->indef = 1; rn_add(c, n); rn_add(c, mk_str(kind ? R_TEXT : R_BYTES, 1, 255, 0)); return c; } /* as a chunk */
+    return n;
+  }
   int ctx = (int)(i & 1);
   i >>= 1;
   rnode* n;
